@@ -31,6 +31,8 @@ func runC15(c *Ctx, r *Report) {
 	c15R5(c, r, "C15.R5")
 	c15R6(c, r, "C15.R6")
 	c15R7(c, r, "C15.R7")
+	c15R8(c, r, "C15.R8")
+	c15R9(c, r, "C15.R9")
 }
 
 // docOptions extracts the option keywords at block depth 1 of a "Syntax:" doc block.
@@ -596,4 +598,95 @@ func c15R7(c *Ctx, r *Report, rule string) {
 		}
 	}
 	r.check(found && good, rule, fname(fn), "fresh server keys", c.pos(fn.Pos()), "server keys continue after the existing ones", "the server key counter does not start at len(app.Servers): servers of a second global layer4 block overwrite those merged from the first")
+}
+
+// c15R8: accumulate into the field you assign. In the Caddyfile unmarshalers a list option may be written on
+// several lines; `x.F = append(x.G, args...)` with G != F silently replaces F by G's content plus the new
+// arguments (a copy-paste slip that no golden file with a single line shows).
+func c15R8(c *Ctx, r *Report, rule string) {
+	r.rule(rule, "in every Caddyfile unmarshaler a configuration field that is assigned the result of append(...) appends to that same field (or to a fresh/local list): x.F = append(x.F, ...), never append(x.G, ...)", 20)
+	for _, fn := range c.Funcs {
+		if !(strings.Contains(fn.Name(), "Caddyfile") || strings.HasPrefix(fn.Name(), "parse")) || len(fn.Blocks) == 0 {
+			continue
+		}
+		n := map[string]int{}
+		for _, b := range fn.Blocks {
+			for _, in := range b.Instrs {
+				st, ok := in.(*ssa.Store)
+				if !ok {
+					continue
+				}
+				_, sn, f, ok := fieldAddr(st.Addr)
+				if !ok {
+					continue
+				}
+				call, ok := st.Val.(*ssa.Call)
+				if !ok || calleeID(call) != "builtin append" || len(call.Call.Args) == 0 {
+					continue
+				}
+				n[sn+"."+f]++
+				k := fmt.Sprintf("%s.%s = append#%d", sn, f, n[sn+"."+f])
+				src := call.Call.Args[0]
+				good, detail := true, ""
+				if ld, isLoad := src.(*ssa.UnOp); isLoad && ld.Op == token.MUL {
+					if _, sn2, f2, ok2 := fieldAddr(ld.X); ok2 && (sn2 != sn || f2 != f) {
+						good, detail = false, sn2+"."+f2
+					}
+				}
+				r.check(good, rule, fname(fn), k, c.ipos(st), "appends to the field it assigns", "the option handler assigns "+sn+"."+f+" the result of appending to "+detail+": values given for "+sn+"."+f+" on an earlier line are dropped and the other list's values are mixed in - the adapted JSON differs from what the Caddyfile says")
+			}
+		}
+	}
+}
+
+// c15R9: keyword shortcuts are recognised on the token after a prefix was stripped. Where an unmarshaler removes
+// a one-character prefix from a token (v = v[1:], the '!' of negated ranges), every comparison of that token with
+// a constant keyword is made on the stripped value.
+func c15R9(c *Ctx, r *Report, rule string) {
+	r.rule(rule, "where a Caddyfile unmarshaler strips a one-character prefix from a token (v = v[1:]), every comparison of that token with a constant keyword uses the stripped value ('!private_ranges' must expand like 'private_ranges')", 1)
+	for _, fn := range c.Funcs {
+		if !strings.Contains(fn.Name(), "Caddyfile") || len(fn.Blocks) == 0 {
+			continue
+		}
+		for _, b := range fn.Blocks {
+			for _, in := range b.Instrs {
+				sl, ok := in.(*ssa.Slice)
+				if !ok || sl.High != nil || sl.Low == nil {
+					continue
+				}
+				if lo, isC := constInt(sl.Low); !isC || lo != 1 {
+					continue
+				}
+				if bt, isStr := sl.X.Type().Underlying().(*types.Basic); !isStr || bt.Info()&types.IsString == 0 {
+					continue
+				}
+				tok := sl.X
+				n := 0
+				for _, b2 := range fn.Blocks {
+					for _, in2 := range b2.Instrs {
+						bo, ok := in2.(*ssa.BinOp)
+						if !ok || (bo.Op != token.EQL && bo.Op != token.NEQ) {
+							continue
+						}
+						var x ssa.Value
+						if s, isS := constString(bo.Y); isS && len(s) > 1 {
+							x = bo.X
+						} else if s, isS := constString(bo.X); isS && len(s) > 1 {
+							x = bo.Y
+						}
+						if x == nil || !(x == tok || derivesFrom(x, tok)) {
+							continue
+						}
+						n++
+						kw, _ := constString(bo.Y)
+						if kw == "" {
+							kw, _ = constString(bo.X)
+						}
+						good := derivesFrom(x, sl)
+						r.check(good, rule, fname(fn), fmt.Sprintf("keyword %q on the stripped token", kw), c.ipos(bo), "compared after the prefix is removed", fmt.Sprintf("the token is compared with %q before its prefix is stripped: the prefixed form (e.g. \"!%s\") is not recognised as the keyword and is taken literally", kw, kw))
+					}
+				}
+			}
+		}
+	}
 }
